@@ -112,3 +112,21 @@ def state_cover_histories(seed, limit=None, scope=1):
     if limit is not None and limit < len(idx):
         idx = rng.sample(idx, limit)
     return [[frames[i] for i in paths[pi]] for pi in idx], {"model_states": len(paths), "histories": len(idx)}
+
+
+def small_alphabet_walks(seed, n, length=40, scope=1):
+    """random walks over the model's small request alphabet (few stations, few probe keys): coincidences
+    such as 'the first probe after a Query equals the last one before it' are frequent, which exposes
+    state the mechanism model does not have (caches, flags)"""
+    frames, paths, d = load(scope)
+    rng = random.Random(seed * 7919 + 13)
+    scs = []
+    for i in range(n):
+        s = Script()
+        boot(s, mtu=rng.choice([576, 590, 1500]))
+        for _ in range(length):
+            s.rx(1, rng.choice(frames))
+        for f in suffix():
+            s.rx(1, f)
+        scs.append(Scenario("g1-walk-%d" % i, s.lines))
+    return scs
